@@ -27,6 +27,7 @@ def Code(s): return N('code', s=s)
 def Link(ch, url, title=None): return N('link', ch=ch, url=url, title=title)
 def Image(alt, url, title=None): return N('image', alt=alt, url=url, title=title)
 def Break(): return N('break')
+def Soft(): return N('soft')          # a line break inside a paragraph (the paragraph is wrapped in the source)
 def Esc(c): return N('esc', c=c)
 def Entity(name): return N('entity', name=name)
 def AutoLink(url): return N('autolink', url=url)
@@ -123,6 +124,8 @@ class Serializer:
             return '![%s](%s%s)' % (n.alt, n.url, (' ' + _title(sp, n.title)) if n.title else '')
         if k == 'break':
             return '  \n'
+        if k == 'soft':
+            return '\n'
         if k == 'esc':
             return '\\' + n.c
         if k == 'entity':
@@ -269,7 +272,7 @@ class Gen:
         self.heads = set()
         self.prefix = 'w'
         self.f = features or set(['emph', 'strong', 'code', 'link', 'image', 'esc', 'entity', 'break', 'quote', 'list', 'codeblock', 'rule',
-                                  'heading', 'table', 'deflist', 'footnote', 'math', 'supsub', 'autolink', 'nested-footnote'])
+                                  'heading', 'table', 'deflist', 'footnote', 'math', 'supsub', 'autolink', 'nested-footnote', 'softbreak', 'deep-items'])
 
     def word(self, prefix=None):
         """prefix: w body text, u attribute-like text (urls, titles, alt, captions), f note text, h heading text, c verbatim"""
@@ -336,6 +339,10 @@ class Gen:
                 out.append(Break())
                 out.append(Text(self.words()))
                 continue
+            elif k >= 0.90 and k < 0.94 and 'softbreak' in allow and depth == 0:
+                out.append(Soft())
+                out.append(Text(self.words()))
+                continue
             if node is not None:
                 if 'adjacent' in allow and node.kind in ('emph', 'strong', 'code', 'link', 'math', 'image') and r.random() < 0.3:
                     # punctuation directly before and after the construct instead of spaces
@@ -397,6 +404,8 @@ class Gen:
                         it.append(CodeBlock(['code %s();' % self.word('c')], None, True))
                 else:
                     it = [Para(self.inlines(maxn=2))] + ([self.block(depth + 1)] if r.random() < 0.4 else [])
+                    if 'deep-items' in f and r.random() < 0.3:
+                        it += [Para(self.inlines(maxn=2)) for _ in range(r.randint(1, 2))]
                 items.append(it)
             if len(items) == 1:
                 # a one-item list has no blank line *between items*; it is wrapped in <p> exactly when the item holds several paragraphs
